@@ -77,28 +77,28 @@ Print Assumptions file_name_pinned_refuted.
       a source that a flag switches off has no opinion; repository roots are recognised only when a
       repository is required and VCS rules are on.  For every flag set, command line, chain above the
       root, canonical root, non-empty chain below, path. *)
-Theorem decide_eq_world_as_read :
-  forall (f : lowflags) (w : world) (path : bytes) (is_dir : bool),
-    w_below w <> [] -> decide f w path is_dir = decide_world f (gitlink_exclude_world f w) path is_dir.
-Proof. exact decide_eq_world_gen_proof. Qed.
-Print Assumptions decide_eq_world_as_read.
-(* 5a. ... where "as the code reads it" differs from the world itself only in the class of the known finding
-      GitlinkExcludeNoRequire (--no-require-git given and some directory of the chain is the root of a linked
-      worktree, `.git` a gitfile: its repository's info/exclude is not found).  Outside that class: *)
 Theorem decide_eq_world :
   forall (f : lowflags) (w : world) (path : bytes) (is_dir : bool),
-    w_below w <> [] -> ~ GitlinkExcludeNoRequire f w -> decide f w path is_dir = decide_world f w path is_dir.
+    w_below w <> [] -> decide f w path is_dir = decide_world f w path is_dir.
 Proof. exact decide_eq_world_proof. Qed.
 Print Assumptions decide_eq_world.
-Example decide_eq_world_nonvacuous :
-  ~ GitlinkExcludeNoRequire gx_flags (gx_world GitDir) /\ ~ GitlinkExcludeNoRequire flags_default (gx_world GitFile).
-Proof. exact gx_outside_class. Qed.
-(* 5b. ... and inside it the statement is false *)
-Theorem decide_eq_world_all_refuted :
-  exists (f : lowflags) (w : world) (path : bytes) (is_dir : bool),
-    w_below w <> [] /\ decide f w path is_dir = MNone /\ decide_world f w path is_dir = MIgnore.
-Proof. exact decide_eq_world_all_refuted_proof. Qed.
-Print Assumptions decide_eq_world_all_refuted.
+(* 5a. the exclude file: since the repair of GitlinkExcludeNoRequire add_child_path reads the repository's
+      info/exclude whenever exclude rules are on, whatever `.git` is and whether or not repositories are required *)
+Theorem exclude_as_read_eq :
+  forall (o : opts) (d : dirinfo), o_git_exclude o = true -> exclude_as_read o d = di_exclude d.
+Proof. exact exclude_as_read_eq_proof. Qed.
+Print Assumptions exclude_as_read_eq.
+Example exclude_as_read_eq_nonvacuous :
+  decide gx_flags (gx_world GitFile) [114; 47; 97]%N false = MIgnore
+  /\ decide_world gx_flags (gx_world GitFile) [114; 47; 97]%N false = MIgnore.
+Proof. exact gx_witness_now_ignored. Qed.
+(* 5b. on the pinned text (git_type computed only under require_git) it was not: --no-require-git, a linked
+      worktree (gitfile), exclude rule `a` *)
+Theorem exclude_as_read_pinned_refuted :
+  exists (o : opts) (d : dirinfo) (p : bytes) (is_dir : bool),
+    o_git_exclude o = true /\ exclude_as_read_with git_type_seen_pinned o d p is_dir = MNone /\ di_exclude d p is_dir = MIgnore.
+Proof. exact exclude_as_read_pinned_refuted_proof. Qed.
+Print Assumptions exclude_as_read_pinned_refuted.
 
 (* 6. flag_removes_exactly_its_source, one per flag: giving the flag = the same decision in the world
       where that source carries no rules (everything else, including the other flags, unchanged) *)
@@ -135,8 +135,7 @@ Print Assumptions no_ignore_files_removes_ignore_files.
 Theorem hidden_removes_hidden_filter :
   forall f w path is_dir, w_below w <> [] ->
     decide (set_hidden true f) w path is_dir
-    = decide_spec (walk_builder_opts (set_hidden false f))
-                  (unhide (wview (set_hidden false f) (gitlink_exclude_world f w) path is_dir)).
+    = decide_spec (walk_builder_opts (set_hidden false f)) (unhide (wview (set_hidden false f) w path is_dir)).
 Proof. exact flag_hidden_proof. Qed.
 Print Assumptions hidden_removes_hidden_filter.
 (* --no-ignore = its five documented implications (it does not imply --no-ignore-files) *)
@@ -226,12 +225,9 @@ Check matched_eq_spec :
 Check explicit_path_always_searched :
   forall (f : lowflags) (c : cmdline) (max_depth : option nat) (roots : list root) (p : bytes),
     In (RFile p) roots -> In p (rg_files f c max_depth roots).
-Check decide_eq_world_as_read :
-  forall (f : lowflags) (w : world) (path : bytes) (is_dir : bool),
-    w_below w <> [] -> decide f w path is_dir = decide_world f (gitlink_exclude_world f w) path is_dir.
 Check decide_eq_world :
   forall (f : lowflags) (w : world) (path : bytes) (is_dir : bool),
-    w_below w <> [] -> ~ GitlinkExcludeNoRequire f w -> decide f w path is_dir = decide_world f w path is_dir.
+    w_below w <> [] -> decide f w path is_dir = decide_world f w path is_dir.
 Check repo_root_test_uniform :
   forall (f : lowflags) (c : cmdline) (d : dirinfo),
     let sh := ig_sh (build_root (walk_builder_opts f) (walk_builder_env f c)) in
